@@ -177,7 +177,37 @@ Fits9C(e) == LET N == Pow2(e.d) IN
   << <<"panic", e.p = 0>>,
      <<"cone_in_cell_and_neighbours", e.p = 1 \/ LET ng == Neigh(N, e.c) IN \A k \in 1..Len(e.wit) : e.wit[k] = e.c \/ e.wit[k] \in ng>> >>
 
+(* ---- behaviour specified beyond the listed properties (pseudo-check X00, DESIGN section 16) ---- *)
+(* to_range(h, dd): the numbers of the descendants of the cell dd levels below are one contiguous range of 4^dd numbers *)
+Pow4B(k) == BigMul(BigOf(Pow2(k)), BigOf(Pow2(k)))
+ToRangeC(e) == LET M == Pow2(e.dd) IN
+  << <<"panic", e.p = 0>>,
+     <<"first_descendant", e.p = 1 \/ e.first = Sub(e.c, M, 0, 0)>>,
+     <<"last_descendant", e.p = 1 \/ e.last = Sub(e.c, M, M - 1, M - 1)>>,
+     <<"length", e.p = 1 \/ e.len = Pow4B(e.dd)>> >>
+(* nside = 2^depth, n_hash = 12 * 4^depth (all three accessors), nside_square = 4^depth, depth(nside(d)) = d *)
+SizesC(e) == << <<"panic", e.p = 0>>,
+                <<"nside", e.p = 1 \/ (e.nside = Pow2(e.d) /\ e.back = e.d /\ e.isd = 1 /\ e.isn = 1)>>,
+                <<"n_hash", e.p = 1 \/ (e.nh = BigMul(<<12>>, Pow4B(e.d)) /\ e.same = 1)>>,
+                <<"nside_square", e.p = 1 \/ e.nsq = Pow4B(e.d)>> >>
+SizesBadC(e) == << <<"depth_refused", \A k \in 1..Len(e.ps) : e.ps[k] = 1>>,
+                   <<"is_nside", e.isn = e.pow2>>,
+                   <<"depth_of_nside", IF e.pow2 = 1 THEN e.dp = e.log2 ELSE e.dp = -1>> >>
+(* MainWindMap: the values are the neighbours (plus the cell itself when asked), sorted_values is increasing, the entries are
+   the neighbour map, every accessor tells the same story *)
+WindMapC(e) == LET N == Pow2(e.d)
+                   want == Neigh(N, e.c) \cup (IF e.with_c = 1 THEN {e.c} ELSE {})
+  IN << <<"panic", e.p = 0>>,
+        <<"values", e.p = 1 \/ (SeqSet(e.sv) = want /\ Len(e.sv) = Cardinality(want) /\ e.inc = 1)>>,
+        <<"entries", e.p = 1 \/ ((\A w \in MainWinds : ToSet(e.entries[w]) = NeighAt(N, e.c, w))
+                                  /\ ToSet(e.entries["C"]) = (IF e.with_c = 1 THEN {e.c} ELSE {}))>>,
+        <<"accessors_agree", e.p = 1 \/ e.same = 1>> >>
+
 Clauses(e) == CASE e.ev = "hash" -> HashC(e)
+                [] e.ev = "to_range" -> ToRangeC(e)
+                [] e.ev = "sizes" -> SizesC(e)
+                [] e.ev = "sizes_bad" -> SizesBadC(e)
+                [] e.ev = "wind_map" -> WindMapC(e)
                 [] e.ev = "hash_bad" -> HashBadC(e)
                 [] e.ev = "hier" -> HierC(e)
                 [] e.ev = "neigh" -> NeighC(e)
